@@ -457,6 +457,17 @@ def _get_global_filters_for_name(context, name_or_none, position):
     return get_global_filters(context, position, name_or_none)
 
 
+def _is_declared_global(context, name):
+    if not isinstance(name, Name) or context.tree_node is None \
+            or context.tree_node.type not in ('funcdef', 'classdef'):
+        return False
+    names = context.tree_node.get_root_node().get_used_names().get(name.value, ())
+    return any(
+        n.parent.type == 'global_stmt' and get_parent_scope(n) == context.tree_node
+        for n in names
+    )
+
+
 def get_global_filters(context, until_position, origin_scope):
     """
     Returns all filters in order of priority for name resolution.
@@ -515,6 +526,12 @@ def get_global_filters(context, until_position, origin_scope):
         if isinstance(context, (BaseFunctionExecutionContext, ModuleContext)):
             # The position should be reset if the current scope is a function.
             until_position = None
+
+        if _is_declared_global(context, origin_scope):
+            # Nothing was bound here (otherwise the filter above had an
+            # answer): `global` makes the lookup continue in the module.
+            context = context.get_root_context()
+            continue
 
         context = context.parent_context
         # A class body is only visible from within that class body itself, not
